@@ -78,8 +78,22 @@ type c11Wire struct {
 	Payload       []byte     `cbor:"payload"`
 }
 
+// c11EnvelopeFrom chooses the envelope's `from` field. It is sender-controlled metadata: the router must file
+// a message under the sender the transport reports and ignore what the envelope claims, so frames carry
+// every kind of claim (absent, small member-like ids incl. the true sender by chance, a non-member, a huge id).
+func c11EnvelopeFrom(cid string, payload []byte) sharing.ID {
+	h := uint32(2166136261)
+	for _, b := range []byte(cid) {
+		h = (h ^ uint32(b)) * 16777619
+	}
+	for _, b := range payload {
+		h = (h ^ uint32(b)) * 16777619
+	}
+	return []sharing.ID{0, 0, 1, 2, 3, 4, 5, 9, 1 << 40}[h%9]
+}
+
 func c11Encode(cid string, payload []byte) []byte {
-	raw, err := serde.MarshalCBOR(&c11Wire{CorrelationID: cid, Payload: payload})
+	raw, err := serde.MarshalCBOR(&c11Wire{From: c11EnvelopeFrom(cid, payload), CorrelationID: cid, Payload: payload})
 	if err != nil {
 		panic(err)
 	}
